@@ -69,12 +69,19 @@ fn exec_response(t: &mut Tape, st: &mut Stats) -> Result<(), String> {
     let status = gen_status(t);
     let count = gen_count(t, limit);
     let obs = t.chance(40);
-    let head = RespHead {
+    let mut head = RespHead {
         v11: !t.chance(25),
         status,
         reason: gen_reason(t),
         fields: gen_fields(t, status, count, obs),
     };
+    // rarely a head of more than 64 KiB: one field value of 64..100 KiB (the field count stays what it is)
+    if count >= 1 && count <= 8 && t.chance(1) {
+        let n = *t.pick(&[65_530usize, 65_536, 70_000, 100_000]);
+        let i = t.below(count);
+        head.fields[i] = Field { name: b"X-Huge".to_vec(), value: vec![b'h'; n], ows_l: b" ".to_vec(), ows_r: vec![] };
+        st.class("resp_head_over_64k");
+    }
     let tail = gen_tail(t);
     let w = head.wire();
     let wire = &w.bytes;
@@ -199,6 +206,15 @@ fn exec_request(t: &mut Tape, st: &mut Stats) -> Result<(), String> {
         2 => b"*".to_vec(),
         _ => b"h.test:443".to_vec(),
     };
+    // rarely a very long (still legal) target
+    let target = if t.chance(1) {
+        let mut v = b"/long/".to_vec();
+        v.extend(std::iter::repeat(b'a').take(*t.pick(&[65_530usize, 65_536, 70_000])));
+        st.class("req_target_over_64k");
+        v
+    } else {
+        target
+    };
     let v11 = !t.chance(30);
     let count = gen_count(t, limit);
     let obs = t.chance(30);
@@ -206,6 +222,11 @@ fn exec_request(t: &mut Tape, st: &mut Stats) -> Result<(), String> {
     if count > 0 && t.chance(60) {
         let i = t.below(count);
         fields[i] = Field::new("Host", "h.test");
+    }
+    if count >= 1 && count <= 8 && t.chance(1) {
+        let i = t.below(count);
+        fields[i] = Field { name: b"X-Huge".to_vec(), value: vec![b'h'; *t.pick(&[65_536usize, 70_000, 100_000])], ows_l: b" ".to_vec(), ows_r: vec![] };
+        st.class("req_head_over_64k");
     }
     let tail = gen_tail(t);
     let mut wire: Vec<u8> = Vec::new();
@@ -287,7 +308,7 @@ pub static DEF: PropDef = PropDef {
     rule: "random heads for limits N in {0, 1, 4, 128} with field counts aimed at {0..N+2, exactly N, exactly N+1}: response heads \
 as in C05 (status 101..999, reasons, OWS, obs-text, repeated names, empty values) and request heads (nine standard methods, \
 lower-case variants, extension tokens over alnum + !*+-.^_`|~; origin-, absolute-, asterisk- and authority-form targets; \
-HTTP/1.0 and 1.1), each followed by 0..48 arbitrary tail bytes. Oracle: complete head (with and without tail) => method/status, \
+HTTP/1.0 and 1.1), each followed by 0..48 arbitrary tail bytes; 1 % of small heads carry a 64-100 KiB field value, 1 % of request heads a 64-70 KiB target. Oracle: complete head (with and without tail) => method/status, \
 version, per-name ordered values and exactly |head| when count <= N, Err(HttpParseTooManyHeaders) when count > N; every strict \
 prefix (all lengths for heads <= 600 bytes) of a head within the limit => incomplete, never an error; partial response parser on \
 every prefix and on the complete head: never Err, and if it reports a response its status/version match and every reported \
